@@ -294,4 +294,6 @@ FetchOnlyMined == pc \in {"headers", "submit"} => (Last <= hRead /\ hRead <= hei
 Provable(e) == /\ relayEpoch = e /\ ready /\ Authorized /\ faults = MaxFaults /\ envs = MaxEnv
                /\ height >= (e + 1) * L + proofLen - 1
 Progress == \A e \in 0..MaxEpoch : Provable(e) ~> (relayEpoch > e)
+\* vacuity guard for Progress (expected to be violated: the antecedent is reachable)
+NeverProvable == \A e \in 0..MaxEpoch : ~Provable(e)
 =============================================================================
